@@ -791,6 +791,23 @@ class KernelRun:
             await self.step_op("mark_pending", step,
                                fn=lambda: self.wf.mark_step_pending(self.wf.find(Step, step)))
 
+    async def detach_any(self):
+        """Not a request of the director: `Node.detach` on an arbitrary node, the root included (the
+        CHECK constraints of the node table must refuse the root)."""
+        wf = self.wf
+        rows = await self.q(lambda: wf.db.execute("SELECT kind, label FROM node").fetchall())
+        kind, label = self.r.choice(rows)
+        self._legal_now = False
+
+        def fn():
+            from stepup.core.static_tree import StaticTree
+
+            cls = {"file": File, "step": Step, "st": StaticTree}.get(kind)
+            node = wf.root if kind == "root" else wf.find(cls, label)
+            node.detach()
+
+        await self.tx(f"k detach {kkey(kind, label)}", fn)
+
     async def simple(self, op, fn):
         await self.tx(f"k {op}", fn)
 
@@ -914,6 +931,8 @@ class KernelRun:
                 (self.confirm, 12), (self.external, 6), (self.pop, 18), (self.run_step, 18),
                 (self.reset_rerun, 3), (self.hold_release, 5), (self.mark_pending, 2), (self.end_phase, 3),
                 (self.restart, 3)]
+        if self.exotic:
+            menu.append((self.detach_any, 2))
         fns = [f for f, w in menu for _ in range(w)]
         for _ in range(nops):
             await r.choice(fns)()
